@@ -195,6 +195,12 @@ func (r *GeneratorInterceptor) UnbindLocalStream(info *interceptor.StreamInfo) {
 	r.streams.Delete(info.SSRC)
 }
 
+// UnbindRemoteStream is called when the Stream is removed. The streams this interceptor requests
+// key frames for are remote streams (see BindRemoteStream), so this is where they must be forgotten.
+func (r *GeneratorInterceptor) UnbindRemoteStream(info *interceptor.StreamInfo) {
+	r.streams.Delete(info.SSRC)
+}
+
 // BindRTCPReader lets you modify any incoming RTCP packets. It is called once per sender/receiver, however this might
 // change in the future. The returned method will be called once per packet batch.
 func (r *GeneratorInterceptor) BindRTCPReader(reader interceptor.RTCPReader) interceptor.RTCPReader {
